@@ -182,6 +182,26 @@ func (e *Eng) evalSpec(st *State, x *SExpr, env map[string]*Val, old map[string]
 					return scalar(fmt.Sprintf("(and ((_ is mkref) %s) (islocal (iref %s)))", a.T, a.T), "Bool", nil)
 				}
 				return scalar(fmt.Sprintf("(or (= %s 0) (islocal %s))", t, t), "Bool", nil)
+			case "declaredHere":
+				// declaredHere(v): the variable named v that is visible here is declared inside the function (literal)
+				// under verification, i.e. it is not captured from an enclosing function and lives for one call only
+				here := false
+				if len(x.Args) > 1 && x.Args[1].Name != "" {
+					var best types.Object
+					for o := range st.vars {
+						if o.Name() != x.Args[1].Name {
+							continue
+						}
+						if best == nil || e.prefer(o, best) {
+							best = o
+						}
+					}
+					if best != nil {
+						lo, hi := e.fnBody().Pos(), e.fnBody().End()
+						here = best.Pos() >= lo && best.Pos() < hi
+					}
+				}
+				return scalar(strconv.FormatBool(here), "Bool", nil)
 			case "litOrd":
 				// litOrd(x): x is known to be the n-th function literal (source order, 1-based) of the enclosing
 				// declaration; 0 when x is not known to be one of its literals
